@@ -114,15 +114,26 @@ def _cross_shard(bodies):
     """two-step histories in ONE process: literals of different kinds with the SAME body text, one after the other (a
     decompression result must depend on the kind of the literal, not only on its text)"""
     import vyxal.encoding as enc
-    from vyxal.helpers import from_base_alphabet, to_base_alphabet
 
     part = explore.Partial()
 
+    # the expected values are computed HERE (positional notation over the documented alphabets), not with the library's helpers:
+    # a helper that remembers something between calls would otherwise be wrong on both sides
+    def value(body, alphabet):
+        n = 0
+        for ch in body:
+            n = n * len(alphabet) + alphabet.index(ch)
+        return n
+
     def expect(kind, body):
         if kind == "cnumber":
-            return from_base_alphabet(body, enc.codepage_number_compress)
+            return value(body, enc.codepage_number_compress)
         if kind == "cstring":
-            return to_base_alphabet(from_base_alphabet(body, enc.codepage_string_compress), enc.base_27_alphabet)
+            n, out = value(body, enc.codepage_string_compress), ""
+            while n:
+                n, d = divmod(n, 27)
+                out = enc.base_27_alphabet[d] + out
+            return out or enc.base_27_alphabet[0]
         return None
 
     wrap = {"cnumber": "»%s»", "cstring": "«%s«", "string": "`%s`"}
@@ -143,6 +154,41 @@ def _cross_shard(bodies):
                                "a compressed literal evaluates differently after another literal with the same text",
                                {"first_kind": k1, "then_kind": k2}, want, got if isinstance(got, str) else [str(x) for x in got], size=len(body))
     part.section("cross_kind_histories", cases=part.d["evaluations"])
+    return part.data()
+
+
+def _mixed_shard(args):
+    """histories of round trips through DIFFERENT codecs in one freshly forked process, in a given order (whatever one codec
+    leaves behind in the process must not change what another one decodes)"""
+    import vyxal.elements as E
+
+    order, nums, strs, dstrs = args
+    part = explore.Partial()
+    ctx = sandbox.fresh_ctx()
+    work = {"N": [("N", n) for n in nums], "S": [("S", s) for s in strs], "D": [("D", s) for s in dstrs]}
+    if order == "interleaved":
+        seq = [x for t in itertools.zip_longest(work["N"], work["S"], work["D"]) for x in t if x is not None]
+    else:
+        seq = [x for k in order for x in work[k]]
+    fn = {"N": E.base_255_number_compress, "S": E.base_255_string_compress, "D": E.optimal_compress}
+    for kind, v in seq:
+        part.count()
+        part.nontriv()
+        try:
+            with sandbox.watchdog(30):
+                text = fn[kind](v, ctx)
+            got = run_text(text)
+        except BaseException as e:  # noqa
+            if isinstance(e, KeyboardInterrupt):
+                raise
+            text, got = None, "compress raises %s: %s" % (type(e).__name__, str(e)[:60])
+        ok = isinstance(got, list) and len(got) == 1 and plain(got[0]) == v and type(plain(got[0])) is type(v)
+        part.outcome((kind, len(text) if text else -1))
+        if not ok:
+            part.violation("mixed", {"order": order, "kind": kind, "value": v, "compressed": text},
+                           "a codec does not round-trip after another codec has been used in the same process",
+                           {"order": order, "kind": kind}, v, got if isinstance(got, str) else [repr(x) for x in got], size=len(str(v)))
+    part.section("mixed_codec_histories", cases=len(seq))
     return part.data()
 
 
@@ -222,6 +268,12 @@ def run(tier, seed):
     shared = [c for c in enc.codepage if c not in "«»`\\" and c in enc.codepage_number_compress and c in enc.codepage_string_compress]
     bodies = shared + [a + b for a in shared[:40] for b in shared[:40]]
     explore.pmap(_cross_shard, explore.chunks(bodies, 32), rep, seed)
+    # mixed-codec histories, each in a freshly forked process: every order of (numbers, strings, dictionary strings) + interleaved
+    mn = list(range(1, 1501)) + [255 ** 2 + d for d in range(0, 12)] + [255 ** 3 + 9 * 255 + 10]
+    ms = [a + b for a in alpha for b in ("",) + tuple(alpha) if a != " "]
+    md = ["".join(p_) for n_ in (1, 2) for p_ in itertools.product("aT .\n9~", repeat=n_)] + words[:40]
+    orders = ["".join(o) for o in itertools.permutations("NSD")] + ["interleaved"]
+    explore.pmap(_mixed_shard, [(o, mn, ms, md) for o in orders], rep, seed, fresh=True)
     # base conversion
     bases = list(range(2, 301))
     work = []
@@ -235,7 +287,7 @@ def run(tier, seed):
     rep.rule = ("number compression: all n in 1..%d plus {255^k+d, 10^k+d}; string compression: all strings of length <=%d over "
                 "[a-z ] not starting with a space plus boundary family; dictionary compression: all ASCII strings of length "
                 "<=2 (<=3 thorough) (no backslash/backquote), all w1 sep w2 over %d dictionary/boundary words x 3 separators; base conversion: "
-                "all bases 2..300 x {0..%d} u {b^k+d}. Round trip through the real lexer/transpiler/exec. "
+                "all bases 2..300 x {0..%d} u {b^k+d}. Cross-kind histories (same body text as »..«..` literal, expected values computed independently) and mixed-codec histories (every order of 1523 numbers / 728 strings / dictionary strings + interleaved, each in a freshly forked process). Round trip through the real lexer/transpiler/exec. "
                 "Each input is distinct." % (N, L, len(words), 300 if not quick else 40))
     rep.sample({"n": 13, "compressed": "»" + "?" + "»"})
     rep.sample({"s": strs[len(strs) // 2]})
@@ -251,6 +303,8 @@ def replay(art):
         d = _num_shard([c["n"]])
     elif "base" in c:
         d = _base_shard([(c["base"], [c["n"]])])
+    elif art["kind"] in ("mixed", "cross"):
+        return "replay by re-running the check (the verdict depends on the whole history of the process)"
     elif art["kind"] == "string":
         d = _str_shard([c["s"]])
     else:
